@@ -455,6 +455,36 @@ def prove_lemmas(ctx, d, timeout_ms=10000, budget_s=400):
     return proven
 
 
+def cross_check(smt2_texts, timeout_s=60):
+    """re-run exported queries with the other installed solvers (/usr/bin/z3 4.8.12, cvc5): returns a list of verdict dicts"""
+    import subprocess
+    import tempfile
+    out = []
+    for label, txt, expected in smt2_texts:
+        res = {"label": label[:80], "z3py": expected}
+        with tempfile.NamedTemporaryFile("w", suffix=".smt2", delete=False, dir=workdir("xcheck")) as f:
+            f.write(txt)
+            path = f.name
+        for name, cmd in (("z3-4.8.12", ["/usr/bin/z3", "-T:%d" % timeout_s, path]), ("cvc5", ["cvc5", "--tlimit=%d" % (timeout_s * 1000), path])):
+            try:
+                r = subprocess.run(cmd, capture_output=True, text=True, timeout=timeout_s + 10)
+                o = (r.stdout + r.stderr).strip().split("\n")
+                first = o[0].strip() if o else ""
+                if "(error" in (r.stdout + r.stderr) or first not in ("sat", "unsat", "unknown"):
+                    res[name] = "inconclusive: " + first[:60]
+                else:
+                    res[name] = first
+            except Exception as e:  # noqa
+                res[name] = "inconclusive: %r" % (e,)
+        try:
+            os.unlink(path)
+        except OSError:
+            pass
+        res["agree"] = all(v == expected for k, v in res.items() if k in ("z3-4.8.12", "cvc5") and v in ("sat", "unsat"))
+        out.append(res)
+    return out
+
+
 def discharge_all(ctx, extra=(), timeout_ms=60000, label_prefix="", lemmas=False, skip_reach=False, retry_timeout_ms=None):
     """discharge every obligation of a run; returns list of dict records"""
     d = Discharger(ctx, timeout_ms)
@@ -501,6 +531,26 @@ def discharge_all(ctx, extra=(), timeout_ms=60000, label_prefix="", lemmas=False
                 rec["verdict"] = "holds" if st == "unsat" else ("violated" if st == "sat" else "inconclusive")
                 if st == "sat":
                     rec["model"] = model_values(ctx, ob.model)
+    # thorough tier: export a few discharged queries and diff them against the other installed solvers
+    if os.environ.get("VERIF_XCHECK") == "1":
+        samples = []
+        step = max(1, len(recs) // 4)
+        for rec in recs[::step][:4]:
+            ob = rec.get("_ob")
+            if ob is None or rec["status"] not in ("sat", "unsat") or ob.cond is False or ob.cond is True or getattr(ob, "how", None):
+                continue
+            sx = z3.Solver()
+            for f in ctx.facts:
+                sx.add(f)
+            sx.add(b_term(ob.cond))
+            try:
+                samples.append((rec["label"], sx.to_smt2(), rec["status"]))
+            except Exception:
+                pass
+        if samples:
+            xc = cross_check(samples)
+            if recs:
+                recs[0]["cross_check"] = xc
     for rec in recs:
         rec.pop("_ob", None)
     return recs
